@@ -41,7 +41,14 @@ def canon(obj: Any) -> Any:
         return {str(k): canon(v) for k, v in obj.items()}
     if isinstance(obj, Path):
         return str(obj)
-    if isinstance(obj, (str, int, float, bool)) or obj is None:
+    if isinstance(obj, str):
+        try:
+            obj.encode("utf-8")
+        except UnicodeEncodeError:
+            # a string with lone surrogates (a command-line byte that is not valid UTF-8): keep it as bytes
+            return {"__sesc__": base64.b64encode(obj.encode("utf-8", "surrogatepass")).decode("ascii")}
+        return obj
+    if isinstance(obj, (int, float, bool)) or obj is None:
         return obj
     return repr(obj)
 
@@ -50,6 +57,8 @@ def decanon(obj: Any) -> Any:
     if isinstance(obj, dict):
         if set(obj) == {"__b64__"}:
             return base64.b64decode(obj["__b64__"])
+        if set(obj) == {"__sesc__"}:
+            return base64.b64decode(obj["__sesc__"]).decode("utf-8", "surrogatepass")
         return {k: decanon(v) for k, v in obj.items()}
     if isinstance(obj, list):
         return [decanon(x) for x in obj]
